@@ -2177,10 +2177,13 @@ StylesheetExecutionContextDefault::getNodeSetByKey(
                 getPrefixResolver();
     assert(resolver != 0);
 
-    XalanQNameByValue&  theQName =
-        m_xpathExecutionContextDefault.getScratchQName();
-
-    theQName.set(name, resolver, locator);
+    // Resolve the name into a local instance, not into the execution
+    // context's shared scratch QName: building the key table evaluates
+    // the match and use expressions of every xsl:key, and those may
+    // resolve other QNames through the scratch instance (format-number()
+    // with a decimal-format name, function-available(),
+    // element-available()), which would change the name being looked up.
+    const XalanQNameByValue     theQName(name, getMemoryManager(), resolver, locator);
 
     m_stylesheetRoot->getNodeSetByKey(
         context,
